@@ -66,6 +66,8 @@ type Frame struct {
 	NoFrame    bool // the input holds no data frame at all (empty, or skippable frames only)
 	Trailer    bool // legacy: kernel-style total-size trailer recognised (lenient only)
 	CSum       uint32
+	Discard    bool   // do not retain the content (only the last 64 KiB, for dependent blocks); ContentLen still counts it
+	ContentLen uint64 // total decoded length
 }
 
 func (f *Frame) OK() bool { return f.Err == "" }
@@ -102,8 +104,14 @@ func BlockMaxOfCode(code int) int {
 }
 
 // ParseFrame parses skippable frames followed by exactly one frame at the start of b.
-func ParseFrame(b []byte, mode Mode) *Frame {
-	f := &Frame{}
+func ParseFrame(b []byte, mode Mode) *Frame { return parseFrame(b, mode, false) }
+
+// ParseFrameDiscard is ParseFrame for multi-gigabyte contents: the decoded bytes are
+// hashed and counted (ContentLen) but not retained.
+func ParseFrameDiscard(b []byte, mode Mode) *Frame { return parseFrame(b, mode, true) }
+
+func parseFrame(b []byte, mode Mode, discard bool) *Frame {
+	f := &Frame{Discard: discard}
 	p := 0
 	for {
 		if len(b)-p < 4 {
@@ -270,7 +278,11 @@ func (f *Frame) parseModern(b []byte, p int, mode Mode) *Frame {
 			dec = res.Out
 		}
 		blk.Decoded = len(dec)
+		f.ContentLen += uint64(len(dec))
 		f.Content = append(f.Content, dec...)
+		if f.Discard && len(f.Content) > 65536 {
+			f.Content = append(f.Content[:0], f.Content[len(f.Content)-65536:]...)
+		}
 		hash.WriteFast(dec)
 		f.Blocks = append(f.Blocks, blk)
 	}
@@ -289,9 +301,9 @@ func (f *Frame) parseModern(b []byte, p int, mode Mode) *Frame {
 		p += 4
 	}
 	f.Consumed = p
-	if f.HasSize && f.Size != uint64(len(f.Content)) {
+	if f.HasSize && f.Size != f.ContentLen {
 		if mode == Strict {
-			return f.fail(descStart+2, "declared content size %d, actual %d", f.Size, len(f.Content))
+			return f.fail(descStart+2, "declared content size %d, actual %d", f.Size, f.ContentLen)
 		}
 		if f.OutOfDom == "" {
 			f.OutOfDom = "content-size-mismatch"
